@@ -1396,7 +1396,9 @@ class Stage:
             else:
                 subst_to.append(MX.sym(k.name(), k.sparsity()))
         for k_old, k_new in zip(subst_from, subst_to):
-            ret._placeholders[k_new] = self._placeholders[k_old]
+            species, expr, ph_args, ph_kwargs = self._placeholders[k_old]
+            # The placeholder's own expression may refer to other placeholders of the template (e.g. time inside an integrand)
+            ret._placeholders[k_new] = (species, substitute([MX(expr)], subst_from, subst_to)[0], ph_args, ph_kwargs)
 
         ret.states = copy(self.states)
         ret.controls = copy(self.controls)
@@ -1419,6 +1421,13 @@ class Stage:
         orig.extend(self._initial.keys())
         res = substitute(orig, subst_from, subst_to)
         ret._objective = res[n_constr]
+        # The dynamics may refer to the template's placeholders as well (e.g. explicit time dependence)
+        def renew(exprs):
+            exprs = list(exprs)
+            return substitute([MX(e) for e in exprs], subst_from, subst_to) if exprs else []
+        ret._state_der = HashDict(zip(self._state_der.keys(), renew(self._state_der.values())))
+        ret._state_next = HashDict(zip(self._state_next.keys(), renew(self._state_next.values())))
+        ret._alg = renew(self._alg)
         r = res[:n_constr]
         ret._constraints = defaultdict(list)
         for k in constr_types:
